@@ -323,10 +323,12 @@ struct Atom {
     alias: Option<&'static str>,
     display: &'static str,
     qty: Option<ScaledQuantity>,
+    /// printed verbatim as its own block(s) instead of inside a step
+    block: bool,
 }
 
 fn atoms() -> Vec<Atom> {
-    let a = |src, name, kind, hidden, alias: Option<&'static str>, display, qty| Atom { src, name, kind, hidden, alias, display, qty };
+    let a = |src, name, kind, hidden, alias: Option<&'static str>, display, qty| Atom { src, name, kind, hidden, alias, display, qty, block: false };
     vec![
         a("@a{1%kg}", "a", 0, false, None, "a", Some(q(1.0, Some("kg")))),
         a("@&a{500%g}", "a", 1, false, None, "a", Some(q(500.0, Some("g")))),
@@ -343,6 +345,9 @@ fn atoms() -> Vec<Atom> {
         a("@@./r/a{2%kg}", "a", 0, false, None, "a", Some(q(2.0, Some("kg")))),
         a("@c", "c", 0, false, None, "c", None),
         a("@&(~1)d{1%kg}", "d", 2, false, None, "d", Some(q(1.0, Some("kg")))),
+        // definitions made in a components-mode block (not in a step)
+        Atom { src: ">> [mode]: components\n@a\n>> [mode]: all", name: "a", kind: 0, hidden: false, alias: None, display: "a", qty: None, block: true },
+        Atom { src: ">> [mode]: components\n@b{2%cups}\n>> [mode]: all", name: "b", kind: 0, hidden: false, alias: None, display: "b", qty: Some(q(2.0, Some("cups"))), block: true },
     ]
 }
 
@@ -372,7 +377,7 @@ fn expect_recipe(oracle: &Oracle, atoms: &[&Atom]) -> Expected {
 
 fn recipe_source(atoms: &[&Atom]) -> String {
     // the intermediate reference needs an earlier step: put every atom in its own step
-    atoms.iter().map(|a| format!("use {}", a.src)).collect::<Vec<_>>().join("\n\n")
+    atoms.iter().map(|a| if a.block { a.src.to_string() } else { format!("use {}", a.src) }).collect::<Vec<_>>().join("\n\n")
 }
 
 struct RecipeEnv {
@@ -592,7 +597,7 @@ pub fn replay(case: &J) -> Vec<Violation> {
         "recipes" | "categorize" => {
             let env = RecipeEnv { oracle: Oracle::new(), parser: CooklangParser::new(Extensions::all(), Converter::bundled()), atoms: atoms() };
             // recover atom indices from the sources
-            let find = |src: &str| -> Vec<usize> { src.split("\n\n").filter_map(|p| env.atoms.iter().position(|a| p == format!("use {}", a.src))).collect() };
+            let find = |src: &str| -> Vec<usize> { src.split("\n\n").filter_map(|p| env.atoms.iter().position(|a| p == format!("use {}", a.src) || (a.block && p == a.src))).collect() };
             if case["kind"] == "recipes" {
                 let recipes: Vec<Vec<usize>> = case["recipes"].as_array().map(|a| a.iter().map(|s| find(s.as_str().unwrap_or(""))).collect()).unwrap_or_default();
                 check_recipes(&env, &recipes, case["factor"].as_f64().unwrap_or(1.0)).unwrap_or_default()
@@ -606,7 +611,7 @@ pub fn replay(case: &J) -> Vec<Violation> {
 
 pub fn run(tier: Tier) {
     let c = ctx();
-    c.set_rule("(a) explicit-state BFS (stateright) over the real GroupedQuantity: actions add(one of 18 quantities: two units per physical quantity across systems, two unknown units, unit-less, numbers, ranges, fractions, text with and without unit, time, temperature), merge(one of 6 prebuilt groups), fit; states de-duplicated by a canonical serialisation of the whole group + reference sums + depth; invariant in every state: per physical quantity / unknown unit / unit-less the total range equals the reference sum, every text value kept verbatim with multiplicity, len/iter/into_vec agree; (b) every recipe of <= n ingredient components over 15 atoms (definition, reference, other-case reference, hidden, optional, new, alias, recipe path, no quantity, intermediate reference) and every sequence of <= 3 such recipes through group_ingredients and IngredientList::add_recipe, compared with a reference semantics (each quantity once, under its definition, recipe order, hidden / reference-only not listed), scaled by 1 and 3; (c) every such list x every aisle configuration over names {a,b,c,z} with synonyms and 1-2 categories: categorize conserves the totals; non-trivial = states / valid recipe sequences; distinct = canonical states, distinct sequences");
+    c.set_rule("(a) explicit-state BFS (stateright) over the real GroupedQuantity: actions add(one of 18 quantities: two units per physical quantity across systems, two unknown units, unit-less, numbers, ranges, fractions, text with and without unit, time, temperature), merge(one of 6 prebuilt groups), fit; states de-duplicated by a canonical serialisation of the whole group + reference sums + depth; invariant in every state: per physical quantity / unknown unit / unit-less the total range equals the reference sum, every text value kept verbatim with multiplicity, len/iter/into_vec agree; (b) every recipe of <= n ingredient components over 17 atoms (definition, components-mode definition, reference, other-case reference, hidden, optional, new, alias, recipe path, no quantity, intermediate reference) and every sequence of <= 3 such recipes through group_ingredients and IngredientList::add_recipe, compared with a reference semantics (each quantity once, under its definition, recipe order, hidden / reference-only not listed), scaled by 1 and 3; (c) every such list x every aisle configuration over names {a,b,c,z} with synonyms and 1-2 categories: categorize conserves the totals; non-trivial = states / valid recipe sequences; distinct = canonical states, distinct sequences");
     let depth = tier.pick(5, 6);
     let (unique, total) = run_group_model(depth);
     c.states.fetch_add(unique as u64, std::sync::atomic::Ordering::Relaxed);
